@@ -191,9 +191,12 @@ static Plan gen_hist(u64 seed) {
     Rng r(seed); Plan p; p.mode = "hist"; p.seed = seed;
     g_pseudo_bias = 0;
     std::string font = gen_font(r);
+    const bool synth = r.chance(1, 6);     // synthesised rule program: pass constraints and rule conditions that read features, user attributes, slot attributes
+    if (synth) { static const char *bases[] = {"grtest1gr", "general", "PigLatinBenchmark_v3", "underflow", "Padauk", "charis_r_gr"}; font = bases[r.below(6)]; }
     const FontImage *fi = g_corpus.find(font);
     Op mf = gen_make_face(r, font, 55, true, false);
-    if (r.chance(20, 100)) {   // rotten-but-accepted fonts (the twin sees the same bytes): lazily failing glyph reads, odd programs
+    if (synth) { Fault f; f.kind = "OVR_SILFPROG"; f.tag = "Silf"; synth_program(r.next(), f.a); mf.faults.push_back(f); }
+    else if (r.chance(20, 100)) {   // rotten-but-accepted fonts (the twin sees the same bytes): lazily failing glyph reads, odd programs
         Fault f;
         if (r.chance(1, 2)) {    // glyph data: a glyph that fails to load lazily, again and again
             static const char *gt[] = {"glyf", "loca", "hmtx", "Glat", "Gloc"};
@@ -213,6 +216,7 @@ static Plan gen_hist(u64 seed) {
     if (r.chance(1, 2)) { std::vector<const Op *> withtext; for (auto &o : p.ops) if (!o.text.empty() && (o.kind == "make_seg" || o.kind == "probe_seg")) withtext.push_back(&o); if (!withtext.empty()) pr.text = withtext[r.below(u32(withtext.size()))]->text; }
     if (shared_font) { pr.kind = "job_seg"; pr.a[1] = 0; }
     if (g_pseudo_bias && g_pseudo_focus && g_pseudo_focus < 0x110000) { pr.text.insert(pr.text.begin() + long(r.below(u32(pr.text.size() + 1))), g_pseudo_focus); if (pr.text.size() < 2) pr.text.insert(pr.text.begin(), 0x61); }
+    if (synth) { for (auto &o : p.ops) if (!o.text.empty() && (o.kind == "make_seg" || o.kind == "probe_seg" || o.kind == "job_seg")) o.text = synth_text(r, 24); pr.text = synth_text(r, 24); }
     p.ops.push_back(pr); p.ops.push_back(pr); p.ops.push_back(rep);
     g_pseudo_bias = 0; g_pseudo_focus = 0;
     return p;
